@@ -213,6 +213,11 @@ def uninstall_shim():
     pxssh.spawn = spawn
 
 
+class LoginHung(BaseException):
+    """raised by the fake transport when a login() keeps reading far beyond every configured timeout (virtual time):
+    the call would never come back.  A BaseException, so that no `except Exception` inside pexpect swallows it."""
+
+
 class FakePxssh(pxssh.pxssh):
     """pxssh whose process is a FakeServer; time is the harness's virtual clock"""
 
@@ -226,6 +231,9 @@ class FakePxssh(pxssh.pxssh):
         self.delaybeforesend = None
         self.delayafterread = None
         self.chunk = None           # largest piece one read delivers (None: whatever was asked for)
+        self.nreads = 0
+        self.t_start = clock.now
+        self.hang_after = 3600.0    # virtual seconds / reads after which a call is declared not to come back
         import types
         # spawn.flag_eof is a property stored on the pty process object
         self.ptyproc = types.SimpleNamespace(flag_eof=False, terminated=False, closed=False, pid=None, exitstatus=None,
@@ -240,6 +248,9 @@ class FakePxssh(pxssh.pxssh):
             raise ValueError('I/O operation on closed file.')
         if timeout == -1:
             timeout = self.timeout
+        self.nreads += 1
+        if self.clock.now - self.t_start > self.hang_after or self.nreads > 200000:
+            raise LoginHung('still reading after %.0f virtual seconds / %d reads' % (self.clock.now - self.t_start, self.nreads))
         s = self.server
         if s.out:
             n = size if self.chunk is None else max(1, min(size, self.chunk))
